@@ -235,7 +235,7 @@ func runWheelScenario(sc *Scenario) *RunData {
 					rd.violate("C04/early/wheel", fmt.Sprintf("advance to t=%s reported key %d expired but its deadline in force is %s (%.3fs later)", durStr(now), k, durStr(r.deadline), float64(r.deadline-now)/1e9))
 					return false
 				}
-				simrt.Probe(fmt.Sprintf("c04.expired.level%d", r.level))
+				probe(fmt.Sprintf("c04.expired.level%d", r.level))
 				delete(ref, k)
 			}
 			return check("advance")
@@ -256,11 +256,11 @@ func runWheelScenario(sc *Scenario) *RunData {
 					dl = 1
 				}
 				if _, ok := ref[op.Key]; ok {
-					simrt.Probe("c04.rescheduled")
+					probe("c04.rescheduled")
 				}
 				r := &wheelRef{deadline: dl, past: dl <= now, level: levelOfTTL(dl - now)}
 				if r.past {
-					simrt.Probe("c04.scheduled-in-past")
+					probe("c04.scheduled-in-past")
 				}
 				ref[op.Key] = r
 				w.Schedule(op.Key, dl)
@@ -271,7 +271,7 @@ func runWheelScenario(sc *Scenario) *RunData {
 				if _, ok := ref[op.Key]; ok {
 					delete(ref, op.Key)
 					w.Deschedule(op.Key)
-					simrt.Probe("c04.descheduled")
+					probe("c04.descheduled")
 					if !check("schedule") {
 						break loop
 					}
@@ -314,7 +314,7 @@ func runWheelScenario(sc *Scenario) *RunData {
 		if advances > 0 {
 			rd.Nontrivial = 1
 		}
-		simrt.ProbeN("c04.advances", advances)
+		probeN("c04.advances", advances)
 	})
 	return rd
 }
@@ -393,7 +393,7 @@ func checkC04(rd *RunData) []Violation {
 		}
 		if l.Reason == 2 {
 			lv := levelOfTTL(w.r.Op.TTL)
-			simrt.Probe("c04.store-expired")
+			probe("c04.store-expired")
 			if l.T < w.r.InvT+w.r.Op.TTL {
 				vs = append(vs, Violation{fmt.Sprintf("C04/early/store,level=%d", lv), fmt.Sprintf("key %d value %d set at t=[%s,%s] with ttl %s was reported EXPIRED at t=%s, before its deadline", l.Key, l.Val, durStr(w.r.InvT), durStr(w.r.RetT), durStr(w.r.Op.TTL), durStr(l.T))})
 			}
